@@ -30,6 +30,13 @@ Proof.
     + apply ty_eqb_eq; exact Ha.
     + apply IH; exact Hb.
   - apply Nat.eqb_eq in H. congruence.
+  - apply andb_prop in H as [H1 H2]. apply Nat.eqb_eq in H1. subst. f_equal.
+    revert vs0 H2. induction vs as [|x r IH]; destruct vs0; cbn [list_eqb]; intros H2; try discriminate; auto.
+    apply andb_prop in H2 as [Ha Hb]. f_equal.
+    + apply ty_eqb_eq; exact Ha.
+    + apply IH; exact Hb.
+  - apply ty_eqb_eq in H. congruence.
+  - apply andb_prop in H as [H1 H2]. apply ty_eqb_eq in H1. apply ty_eqb_eq in H2. congruence.
 Qed.
 
 Lemma oty_is_eq o t : oty_is o t = true -> o = Some t.
@@ -41,7 +48,12 @@ Inductive has_ty : value -> ty -> Prop :=
 | HT_bool b : has_ty (VBool b) TBool
 | HT_unit : has_ty VUnit TVoid
 | HT_arr vs n t : length vs = n -> Forall (fun v => has_ty v t) vs -> has_ty (VArr vs) (TArr n t)
-| HT_struct id vs ts : Forall2 has_ty vs ts -> has_ty (VStruct vs) (TStruct id ts).
+| HT_struct id vs ts : Forall2 has_ty vs ts -> has_ty (VStruct vs) (TStruct id ts)
+| HT_sum t ts k pt v : variants t = Some ts -> nth_error ts k = Some pt -> has_ty v pt -> has_ty (VSum k v) t.
+
+Ltac inv_ty H :=
+  inversion H; subst;
+  try match goal with X : variants _ = Some _ |- _ => cbn in X; discriminate X end.
 
 Definition bind_ok (g : nat * ty * bool) (b : binding) : Prop :=
   fst (fst g) = fst (fst b) /\ snd g = snd (fst b) /\ has_ty (snd b) (snd (fst g)).
@@ -98,10 +110,10 @@ Proof.
   induction p as [|s r IH]; intros v t u Hv Hp; cbn [path_ty get_path] in *.
   - inversion Hp; subst; eauto.
   - destruct s.
-    + destruct t; try discriminate. inversion Hv; subst.
+    + destruct t; try discriminate. inv_ty Hv.
       destruct (nth_error fs k) eqn:E; try discriminate.
       destruct (Forall2_nth _ _ _ _ _ H1 E) as (a & Ea & Ha). rewrite Ea. eauto.
-    + destruct t; try discriminate. inversion Hv; subst.
+    + destruct t; try discriminate. inv_ty Hv.
       destruct (Nat.ltb n (length vs)) eqn:E; try discriminate. apply Nat.ltb_lt in E.
       destruct (Forall_nth _ _ _ H3 E) as (a & Ea & Ha). rewrite Ea. eauto.
 Qed.
@@ -131,12 +143,12 @@ Proof.
   induction p as [|s r IH]; intros v t u nv Hv Hp Hn; cbn [path_ty set_path] in *.
   - inversion Hp; subst; eauto.
   - destruct s.
-    + destruct t; try discriminate. inversion Hv; subst.
+    + destruct t; try discriminate. inv_ty Hv.
       destruct (nth_error fs k) eqn:E; try discriminate.
       destruct (set_nth_Forall2 has_ty (fun u0 => set_path u0 r nv) _ _ _ _ H1 E) as (l2 & E2 & F2).
       { intros a Ha. eapply IH; eauto. }
       rewrite E2. eexists; split; eauto. constructor; auto.
-    + destruct t; try discriminate. inversion Hv; subst.
+    + destruct t; try discriminate. inv_ty Hv.
       destruct (Nat.ltb n (length vs)) eqn:E; try discriminate. apply Nat.ltb_lt in E.
       destruct (set_nth_Forall (fun v => has_ty v t) (fun u0 => set_path u0 r nv) _ _ H3 E) as (l2 & E2 & F2 & Len).
       { intros a Ha. eapply IH; eauto. }
@@ -195,7 +207,7 @@ Definition is_val (r : res) : bool := match r with Res _ _ (CVal _) => true | _ 
 Lemma res_ok_abort G L ret t t' r : res_ok G L ret t r -> is_val r = false -> res_ok G L ret t' r.
 Proof. destruct r as [en out [v|l v|l|v]| | | |]; cbn; auto; discriminate. Qed.
 
-Definition is_let (e : expr) : bool := match e with ELet _ _ _ _ => true | _ => false end.
+Definition is_let (e : expr) : bool := match e with ELet _ _ _ _ => true | EDefer _ => true | _ => false end.
 
 Lemma check_stmts_nolet chk G s r k : is_let s = false ->
   check_stmts chk G (s :: r) k = match chk G s with Some _ => check_stmts chk G r k | None => None end.
@@ -249,7 +261,14 @@ Section Lists.
           pose proof (Hev G _ ts en out Es Hen) as R.
           destruct (ev en out s) as [en1 out1 [v|? v|?|v]| | | |]; cbn [res_ok ctl_ok] in R |- *;
             try tauto. destruct R as [Hen1 _]. eapply IH; eauto. }
-      destruct s; try discriminate. cbn [check_stmts eval_stmts] in *.
+      destruct s; try discriminate; cbn [check_stmts eval_stmts] in *.
+      2:{ (* EDefer *)
+          destruct (check fs L ret G s) as [td|] eqn:Ed; [|discriminate].
+          specialize (IH _ _ en out Hc Hen).
+          destruct (eval_stmts ev en out r tail) as [en1 out1 c| | | |]; cbn [res_ok] in IH |- *; auto.
+          destruct IH as [Hen1 Hc1].
+          pose proof (Hev G s td en1 out1 Ed Hen1) as R.
+          destruct (ev en1 out1 s) as [en2 out2 [v|? v|?|v]| | | |]; cbn [res_ok ctl_ok] in R |- *; tauto. }
       (* ELet *)
       destruct (closed t0 && oty_is (check fs L ret G s) t0) eqn:Ec; [|discriminate].
       apply andb_prop in Ec as [_ Ec]. apply oty_is_eq in Ec.
@@ -288,10 +307,10 @@ Section Lists.
       pose proof (Hev G lhs2 _ en1 out1 Ei Hen1) as R.
       destruct (ev en1 out1 lhs2) as [en2 out2 [v|l v|l|v]| | | |]; cbn in R;
         try (split; [reflexivity | intros t'; cbn; tauto]).
-      destruct R as [Hen2 Hv]. inversion Hv; subst.
+      destruct R as [Hen2 Hv]. inv_ty Hv.
       destruct (lookup_ok _ _ _ _ _ Hen2 Hl) as (v0 & El & Hv0). rewrite El.
       destruct (get_path_ty p v0 tx _ Hv0 Hp) as (w & Eg & Hw). rewrite Eg.
-      inversion Hw; subst.
+      inv_ty Hw.
       destruct ((0 <=? z) && (z <? Z.of_nat (length vs))) eqn:Eb.
       + repeat split; auto. exists tx, m. split; auto.
         rewrite path_ty_app, Hp. cbn [path_ty].
@@ -309,6 +328,23 @@ Section Lists.
       rewrite path_ty_app, Hp. cbn [path_ty]. rewrite Hc. reflexivity.
   Qed.
 End Lists.
+
+Lemma sum_inv v t ts : has_ty v t -> variants t = Some ts ->
+  exists k pt w, v = VSum k w /\ nth_error ts k = Some pt /\ has_ty w pt.
+Proof.
+  intros H Ev. destruct H; cbn in Ev; try discriminate.
+  rewrite H in Ev. inversion Ev; subst. eauto 6.
+Qed.
+
+Lemma check_arms_nth chk G x t arms : forall ts k a pt,
+  check_arms chk G x arms ts t = true -> nth_error arms k = Some a -> nth_error ts k = Some pt ->
+  oty_is (chk ((x, pt, false) :: G) a) t = true.
+Proof.
+  induction arms as [|a0 arms IH]; intros ts k a pt Hc Ha Ht; destruct k; cbn in Ha; try discriminate.
+  - inversion Ha; subst. destruct ts; cbn in *; try discriminate. inversion Ht; subst.
+    apply andb_prop in Hc as [H _]. exact H.
+  - destruct ts; cbn in *; try discriminate. apply andb_prop in Hc as [_ H]. eapply IH; eauto.
+Qed.
 
 Definition funs_ok (fs : list fundef) : Prop := forallb (check_fun fs) fs = true.
 
@@ -338,51 +374,51 @@ Proof.
     destruct (vlookup G x) as [[tx m]|] eqn:E; [|discriminate]. inversion Hc; subst.
     destruct (lookup_ok _ _ _ _ _ Hen E) as (v & El & Hv). rewrite El. cbn. auto.
   - (* EBin *)
-    destruct (check fs L ret G e1) as [[i| | | | |]|] eqn:E1; try discriminate.
-    destruct (check fs L ret G e2) as [[j| | | | |]|] eqn:E2; try discriminate.
+    destruct (check fs L ret G e1) as [[i| | | | | | | |]|] eqn:E1; try discriminate.
+    destruct (check fs L ret G e2) as [[j| | | | | | | |]|] eqn:E2; try discriminate.
     destruct (ity_eqb i j) eqn:Eij; [|discriminate]. inversion Hc; subst.
     apply ity_eqb_eq in Eij; subst j.
-    sub_ev Hrec e1 en out E1 Hen. inversion Hv; subst.
-    sub_ev Hrec e2 en0 out0 E2 Hen0. inversion Hv0; subst.
+    sub_ev Hrec e1 en out E1 Hen. inv_ty Hv.
+    sub_ev Hrec e2 en0 out0 E2 Hen0. inv_ty Hv0.
     assert (Er : ity_eqb i i = true) by (destruct i as [[] []]; reflexivity). rewrite Er.
     destruct (binop_sem op i z z0); cbn; auto. split; auto. constructor.
   - (* ECmp *)
-    destruct (check fs L ret G e1) as [[i| | | | |]|] eqn:E1; try discriminate.
-    destruct (check fs L ret G e2) as [[j| | | | |]|] eqn:E2; try discriminate.
+    destruct (check fs L ret G e1) as [[i| | | | | | | |]|] eqn:E1; try discriminate.
+    destruct (check fs L ret G e2) as [[j| | | | | | | |]|] eqn:E2; try discriminate.
     destruct (ity_eqb i j) eqn:Eij; [|discriminate]. inversion Hc; subst.
     apply ity_eqb_eq in Eij; subst j.
-    sub_ev Hrec e1 en out E1 Hen. inversion Hv; subst.
-    sub_ev Hrec e2 en0 out0 E2 Hen0. inversion Hv0; subst.
+    sub_ev Hrec e1 en out E1 Hen. inv_ty Hv.
+    sub_ev Hrec e2 en0 out0 E2 Hen0. inv_ty Hv0.
     assert (Er : ity_eqb i i = true) by (destruct i as [[] []]; reflexivity). rewrite Er.
     cbn; split; auto. constructor.
   - (* EUn *)
     destruct (check fs L ret G e) as [ta|] eqn:E1; [|destruct op; discriminate].
     sub_ev Hrec e en out E1 Hen.
-    destruct op, ta; try discriminate; try (destruct (isg i); [|discriminate]); inversion Hc; subst; inversion Hv; subst; cbn; split; auto; constructor.
+    destruct op, ta; try discriminate; try (destruct (isg i); [|discriminate]); inversion Hc; subst; inv_ty Hv; cbn; split; auto; constructor.
   - (* EAnd *)
     destruct (check fs L ret G e1) as [[]|] eqn:E1; try discriminate.
     destruct (check fs L ret G e2) as [[]|] eqn:E2; try discriminate. inversion Hc; subst.
-    sub_ev Hrec e1 en out E1 Hen. inversion Hv; subst. destruct b.
-    + sub_ev Hrec e2 en0 out0 E2 Hen0. inversion Hv0; subst. cbn. split; auto.
+    sub_ev Hrec e1 en out E1 Hen. inv_ty Hv. destruct b.
+    + sub_ev Hrec e2 en0 out0 E2 Hen0. inv_ty Hv0. cbn. split; auto.
     + cbn. split; auto.
   - (* EOr *)
     destruct (check fs L ret G e1) as [[]|] eqn:E1; try discriminate.
     destruct (check fs L ret G e2) as [[]|] eqn:E2; try discriminate. inversion Hc; subst.
-    sub_ev Hrec e1 en out E1 Hen. inversion Hv; subst. destruct b.
+    sub_ev Hrec e1 en out E1 Hen. inv_ty Hv. destruct b.
     + cbn. split; auto.
-    + sub_ev Hrec e2 en0 out0 E2 Hen0. inversion Hv0; subst. cbn. split; auto.
+    + sub_ev Hrec e2 en0 out0 E2 Hen0. inv_ty Hv0. cbn. split; auto.
   - (* ECast *)
     destruct t0; try discriminate.
     destruct (check fs L ret G e) as [[]|] eqn:E1; try discriminate. inversion Hc; subst.
     cbn [tsubst].
-    sub_ev Hrec e en out E1 Hen. inversion Hv; subst. cbn. split; auto. constructor.
+    sub_ev Hrec e en out E1 Hen. inv_ty Hv. cbn. split; auto. constructor.
   - (* EIf *)
     destruct (check fs L ret G e1) as [[]|] eqn:E1; try discriminate.
     destruct (check fs L ret G e2) as [ta|] eqn:E2; try discriminate.
     destruct (check fs L ret G e3) as [tb|] eqn:E3; try discriminate.
     destruct (ty_eqb ta tb) eqn:Eab; [|discriminate]. inversion Hc; subst.
     apply ty_eqb_eq in Eab; subst tb.
-    sub_ev Hrec e1 en out E1 Hen. inversion Hv; subst. destruct b.
+    sub_ev Hrec e1 en out E1 Hen. inv_ty Hv. destruct b.
     + eapply Hrec; eauto.
     + eapply Hrec; eauto.
   - (* EWhile *)
@@ -390,7 +426,7 @@ Proof.
     destruct (check fs ((l, (true, TVoid)) :: L) ret G e2) as [tb|] eqn:E2; try discriminate.
     inversion Hc; subst.
     assert (Hw : check fs L ret G (EWhile l e1 e2) = Some TVoid) by (cbn [check]; rewrite E1, E2; reflexivity).
-    sub_ev Hrec e1 en out E1 Hen. inversion Hv; subst. destruct b; [|cbn; split; auto; constructor].
+    sub_ev Hrec e1 en out E1 Hen. inv_ty Hv. destruct b; [|cbn; split; auto; constructor].
     pose proof (Hrec s _ _ _ e2 _ en0 out0 E2 Hen0) as R.
     destruct (rec s en0 out0 e2) as [en1 out1 [v|l' v|l'|v]| | | |]; cbn [res_ok ctl_ok] in R |- *; try tauto.
     + destruct R. eapply Hrec; eauto.
@@ -464,11 +500,11 @@ Proof.
     destruct R as [Hen1 Hvs]. apply Forall2_repeat in Hvs as [Hl Hf].
     cbn. split; auto. constructor; auto.
   - (* EIndex *)
-    destruct (check fs L ret G e1) as [[| | |n ta| |]|] eqn:E1; try discriminate.
-    destruct (check fs L ret G e2) as [[j| | | | |]|] eqn:E2; try discriminate.
+    destruct (check fs L ret G e1) as [[| | |n ta| | | | |]|] eqn:E1; try discriminate.
+    destruct (check fs L ret G e2) as [[j| | | | | | | |]|] eqn:E2; try discriminate.
     destruct (ity_eqb j usize); [|discriminate]. inversion Hc; subst.
-    sub_ev Hrec e1 en out E1 Hen. inversion Hv; subst.
-    sub_ev Hrec e2 en0 out0 E2 Hen0. inversion Hv0; subst.
+    sub_ev Hrec e1 en out E1 Hen. inv_ty Hv.
+    sub_ev Hrec e2 en0 out0 E2 Hen0. inv_ty Hv0.
     destruct ((0 <=? z) && (z <? Z.of_nat (length vs))) eqn:Eb; [|exact I].
     apply andb_prop in Eb as [B1 B2]. apply Z.leb_le in B1. apply Z.ltb_lt in B2.
     destruct (Forall_nth _ _ (Z.to_nat z) H3 ltac:(lia)) as (a & Ea & Ha). rewrite Ea.
@@ -483,8 +519,8 @@ Proof.
     2:{ destruct R as [_ R]. apply R. }
     destruct R as [Hen1 Hvs]. cbn. split; auto. constructor; auto.
   - (* EField *)
-    destruct (check fs L ret G e) as [[| | | |id ts|]|] eqn:E1; try discriminate.
-    sub_ev Hrec e en out E1 Hen. inversion Hv; subst.
+    destruct (check fs L ret G e) as [[| | | |id ts| | | |]|] eqn:E1; try discriminate.
+    sub_ev Hrec e en out E1 Hen. inv_ty Hv.
     destruct (Forall2_nth _ _ _ _ _ H1 Hc) as (a & Ea & Ha). rewrite Ea. cbn. split; auto.
   - discriminate.
   - (* EAssign *)
@@ -504,7 +540,61 @@ Proof.
     cbn. split; auto. constructor.
   - (* EPrint *)
     destruct (check fs L ret G e) as [[]|] eqn:E1; try discriminate; inversion Hc; subst;
-      sub_ev Hrec e en out E1 Hen; inversion Hv; subst; cbn; split; auto; constructor.
+      sub_ev Hrec e en out E1 Hen; inv_ty Hv; cbn; split; auto; constructor.
+  - discriminate.
+  - (* EInject *)
+    destruct (variants t0) as [ts|] eqn:Ev; [|discriminate].
+    destruct (nth_error ts k) as [pt|] eqn:Ek; [|discriminate].
+    match type of Hc with (if ?c then _ else _) = _ => destruct c eqn:Ec; [|discriminate] end.
+    inversion Hc; subst. apply andb_prop in Ec as [_ Ec]. apply oty_is_eq in Ec.
+    sub_ev Hrec e en out Ec Hen; cbn [res_ok ctl_ok]; split; auto; econstructor; eauto.
+  - (* ESwitch *)
+    destruct (check fs L ret G e) as [ta|] eqn:E1; [|discriminate].
+    destruct (variants ta) as [ts|] eqn:Ev; [|discriminate].
+    match type of Hc with (if ?c then _ else _) = _ => destruct c eqn:Ec; [|discriminate] end.
+    inversion Hc; subst. apply andb_prop in Ec as [Ec Ed]. apply andb_prop in Ec as [_ Ea].
+    sub_ev Hrec e en out E1 Hen.
+    destruct (sum_inv _ _ _ Hv Ev) as (k & pt & w & -> & Ek & Hw).
+    destruct (nth_error arms k) as [arm|] eqn:Earm.
+    + pose proof (check_arms_nth _ _ _ _ _ _ _ _ _ Ea Earm Ek) as Ha. apply oty_is_eq in Ha.
+      assert (Hen' : env_ok ((x, pt, false) :: G) ((x, false, w) :: en0)).
+      { constructor; auto. repeat split; auto. }
+      pose proof (Hrec s _ _ _ arm _ _ out0 Ha Hen') as R.
+      destruct (rec s ((x, false, w) :: en0) out0 arm) as [en2 out2 c| | | |]; cbn [res_ok] in R |- *; auto.
+      destruct R as [Hen2 Hc2]. inversion Hen2; subst. cbn [res_ok]. split; auto.
+    + destruct dflt as [d|].
+      * apply oty_is_eq in Ed. eapply Hrec; eauto.
+      * exfalso. apply Nat.leb_le in Ed. apply nth_error_None in Earm.
+        assert (k < length ts)%nat by (apply nth_error_Some; congruence). lia.
+  - (* EIsVariant *)
+    destruct (check fs L ret G e) as [ta|] eqn:E1; [|discriminate].
+    destruct (variants ta) as [ts|] eqn:Ev; [|discriminate].
+    destruct (Nat.ltb k (length ts)); [|discriminate]. inversion Hc; subst.
+    sub_ev Hrec e en out E1 Hen.
+    destruct (sum_inv _ _ _ Hv Ev) as (k' & pt & w & -> & _ & _). cbn. split; auto. constructor.
+  - (* EUnwrap *)
+    destruct (check fs L ret G e) as [ta|] eqn:E1; [|discriminate].
+    destruct (variants ta) as [ts|] eqn:Ev; [|discriminate].
+    sub_ev Hrec e en out E1 Hen.
+    destruct (sum_inv _ _ _ Hv Ev) as (k' & pt & w & -> & Ek & Hw).
+    destruct (Nat.eqb k' k) eqn:Ekk; [|exact I].
+    apply Nat.eqb_eq in Ekk; subst. rewrite Hc in Ek. inversion Ek; subst. cbn. split; auto.
+  - (* ETry *)
+    destruct (check fs L ret G e) as [ta|] eqn:E1; [|discriminate].
+    destruct ta; try discriminate; destruct ret; try discriminate.
+    + inversion Hc; subst. sub_ev Hrec e en out E1 Hen.
+      destruct (sum_inv _ _ _ Hv eq_refl) as (k & pt & w & -> & Ek & Hw).
+      destruct k as [|[|k]]; cbn in Ek.
+      * inversion Ek; subst. cbn. split; auto. econstructor; [reflexivity | reflexivity | exact Hw].
+      * inversion Ek; subst. cbn. split; auto.
+      * destruct k; discriminate.
+    + match type of Hc with (if ?c then _ else _) = _ => destruct c eqn:Ee; [|discriminate] end.
+      apply ty_eqb_eq in Ee; subst. inversion Hc; subst. sub_ev Hrec e en out E1 Hen.
+      destruct (sum_inv _ _ _ Hv eq_refl) as (k & pt & w & -> & Ek & Hw).
+      destruct k as [|[|k]]; cbn in Ek.
+      * inversion Ek; subst. cbn. split; auto. econstructor; [reflexivity | reflexivity | exact Hw].
+      * inversion Ek; subst. cbn. split; auto.
+      * destruct k; discriminate.
 Qed.
 
 Theorem eval_sound fs : funs_ok fs -> forall n, sound fs (eval fs n).
@@ -534,8 +624,8 @@ Proof.
                 ltac:(constructor)) as R.
   destruct (eval (funs p) fuel ([], []) [] [] (f_body fd)) as [en out [v|l v|l|v]| | | |];
     cbn [res_ok ctl_ok] in R; try discriminate; try tauto.
-  - destruct R as [_ Hv]. destruct (f_ret fd); try discriminate; inversion Hv; subst; discriminate.
+  - destruct R as [_ Hv]. destruct (f_ret fd); try discriminate; inv_ty Hv; discriminate.
   - destruct R as [_ (k & u & Hl & _)]. discriminate.
   - destruct R as [_ (u & Hl)]. discriminate.
-  - destruct R as [_ Hv]. destruct (f_ret fd); try discriminate; inversion Hv; subst; discriminate.
+  - destruct R as [_ Hv]. destruct (f_ret fd); try discriminate; inv_ty Hv; discriminate.
 Qed.
